@@ -911,16 +911,28 @@ def check_marker_balance(ctx, pid):
                   'exactly once')
 
 
+def check_comparison_types(ctx, pid):
+    from . import gendrive
+    gendrive.report(
+        ctx, pid, kinds={'comparison-common-type'},
+        rule_suffix='comparison-uses-the-arithmetic-common-type',
+        rule_text='for every pair of numeric operand types, the code '
+                  'emitted for a comparison converts its operands to the '
+                  'same common type as the code emitted for + on the same '
+                  'operands (relational run of gen_binary_op)')
+
+
 def check_exit_admission(ctx, pid):
     from . import gendrive
     gendrive.report(
         ctx, pid, kinds={'valid-node-rejected', 'invalid-node-accepted'},
-        rule_suffix='exit-statements-admitted-exactly-inside-their-loop',
-        rule_text='the passes, interpreted on an EXIT FOR / EXIT DO node '
-                  'with a stack of open blocks, accept it when a loop of its '
-                  'kind is open anywhere up the stack (also behind loops of '
-                  'the other kind) and reject it with a CompileError when '
-                  'none is')
+        rule_suffix='admission-matches-the-language-rule',
+        rule_text='the passes, interpreted on abstract nodes, accept what '
+                  'the language allows and reject what it forbids: EXIT FOR '
+                  '/ EXIT DO exactly when a loop of their kind is open '
+                  'anywhere up the block stack; a whole-array argument '
+                  'exactly when its element type equals the parameter\'s '
+                  '(arrays are passed by reference)')
 
 
 def check_exit_targets(ctx, pid):
